@@ -11,7 +11,7 @@ import (
 func init() {
 	Registry["C21"] = RuleDef{Module: ".", Run: runC21,
 		Technique:   "guard rules (dominating / edge-wise conditions on go/ssa) on every replica hand-out, provenance of consent flags through parameters, clamp rule on selector results",
-		Explanation: "Decides (R21a) that in the sentinel client every routing use of the replica connection (returned from a picker, acquired, or used to send a caller's command) is under `c.replica` (ReplicaOnly) or under a true SendToReplicas answer, that the batch pickers get their flag from sendAllToReplica[Cache], and that those answer true only when the predicate is set and no call of it answered false; (R21b) that the standalone client reaches a replica (pick / replicas slice) only under a true toReplicas answer, and cache reads and dedicated clients only use the primary; (R21c) that the cluster client consults the replica slot table only under a true toReplica/SendToReplicas answer (or a bitmap bit set under one), that the toReplica flag passed to pick/_pick always derives from the predicate, and that replicas enter the primary slot table only in the ReplicaOnly arm; (R21d) that every node-selector result used as an index is replaced by 0 (the primary) when it is negative or not below the candidate count.",
+		Explanation: "Decides (R21a) that in the sentinel client every routing use of the replica connection (returned from a picker, acquired, or used to send a caller's command) is under `c.replica` (ReplicaOnly) or under a true SendToReplicas answer, that the batch pickers get their flag from sendAllToReplica[Cache], and that those answer true only when the predicate is set and no call of it answered false; (R21b) that the standalone client reaches a replica (pick / replicas slice) only under a true toReplicas answer, and cache reads and dedicated clients only use the primary; (R21c) that the cluster client consults the replica slot table only under a true toReplica/SendToReplicas answer (or a bitmap bit set under one), that the toReplica flag passed to pick/_pick always derives from the predicate, and that replicas enter the primary slot table only in the ReplicaOnly arm; (R21d) that every node-selector result used as an index is replaced by 0 (the primary) when it is negative or not below the candidate count. (R21e) in the cluster batch pickers the connection of command i comes from the slot tables or from its own destination slot, never from another command of the batch.",
 		NotDecided:  "that the loop-accumulated batch flag really covers every command for all batch shapes (only the accumulator shape is checked); which replica is chosen."}
 }
 
@@ -208,6 +208,7 @@ func isRoutingUse(in ssa.Instruction, v ssa.Value) bool {
 }
 
 func runC21(r *Report) {
+	destinationProvenanceRule(r)
 	p := r.P
 	cc := &consentCtx{p: p, paramOK: map[*ssa.Parameter]int{}, bitmapOK: map[*ssa.Function]int{}}
 
@@ -533,4 +534,94 @@ func checkAllPredicate(r *Report, rule string, fn *ssa.Function) {
 		}
 	}
 	r.Anchor(rule, FuncName(fn)+": predicate calls", nCalls >= 1)
+}
+
+// destinationProvenanceRule (R21e): in the cluster batch pickers the connection chosen for command
+// i comes from the primary slot table, from the replica slot table (whose consultation R21c puts
+// under this command's own consent) or - when read back - from the command's own slot of the
+// destination table. It is never taken over from another command of the batch, whose consent says
+// nothing about this one.
+func destinationProvenanceRule(r *Report) {
+	n := 0
+	for _, name := range []string{"rueidis.(*clusterClient)._pickMulti", "rueidis.(*clusterClient)._pickMultiCache"} {
+		fn := r.FnAnchor("R21e", name)
+		if fn == nil {
+			continue
+		}
+		// the loop index of each per-command loop
+		okLeaf := func(v ssa.Value, idxOK func(ssa.Value) bool) (bool, string) {
+			if IsNilConst(v) {
+				return true, ""
+			}
+			d := DescDeep(v)
+			switch {
+			case strings.Contains(d, ".wslots["):
+				return true, ""
+			case strings.Contains(d, ".rslots[") && strings.HasSuffix(d, ".conn"):
+				return true, ""
+			}
+			if sl, idx, isel := elemOf(v); isel && strings.Contains(shortType(sl.Type()), "[]rueidis.conn") {
+				if idxOK(idx) {
+					return true, ""
+				}
+				return false, "taken from another command's destination: " + d
+			}
+			// a node list element's conn (nodes := c.rslots[slot]; nodes[rIndex].conn)
+			if strings.HasSuffix(d, ".conn") && strings.Contains(shortType(v.Type()), "conn") {
+				if DependsOn(v, func(x ssa.Value) bool { return strings.Contains(Desc(x), ".rslots") }) {
+					return true, ""
+				}
+			}
+			return false, "unexpected origin: " + d
+		}
+		check := func(site Site, v ssa.Value, idxOK func(ssa.Value) bool, what string) {
+			n++
+			seen := map[ssa.Value]bool{}
+			good := true
+			why := ""
+			var walk func(x ssa.Value)
+			walk = func(x ssa.Value) {
+				if seen[x] {
+					return
+				}
+				seen[x] = true
+				if ph, ok := x.(*ssa.Phi); ok {
+					for _, e := range ph.Edges {
+						walk(e)
+					}
+					return
+				}
+				if ok, w := okLeaf(x, idxOK); !ok {
+					good, why = false, w
+				}
+			}
+			walk(v)
+			r.ObSite("R21e", site, what, good, "the connection chosen for a command comes from the slot tables or from the command's own destination slot; "+why)
+		}
+		for _, s := range Sites(fn, func(in ssa.Instruction) bool { return true }) {
+			switch x := s.Instr.(type) {
+			case *ssa.Store:
+				if ia, ok := x.Addr.(*ssa.IndexAddr); ok && strings.Contains(shortType(ia.X.Type()), "[]rueidis.conn") {
+					own := ia.Index
+					check(s, x.Val, func(i ssa.Value) bool { return i == own }, "destination-slot")
+				}
+			case *ssa.Lookup:
+				// retries.m[cc] / count.m[cc]: the key
+				if strings.HasPrefix(shortType(x.X.Type()), "map[rueidis.conn]") {
+					var loopIdx ssa.Value
+					for _, h := range fn.Blocks {
+						if IsLoopHeader(h) && h.Dominates(s.Block) {
+							for _, in := range h.Instrs {
+								if bo, ok := in.(*ssa.BinOp); ok && isRangeIndex(h, bo) {
+									loopIdx = bo
+								}
+							}
+						}
+					}
+					check(s, x.Index, func(i ssa.Value) bool { return loopIdx != nil && i == loopIdx }, "batch-key")
+				}
+			}
+		}
+	}
+	r.Anchor("R21e", "per-command destinations (>= 4)", n >= 4)
 }
